@@ -50,6 +50,14 @@ package jtypes
 //@ func IsArray
 //@   ensures result == arrKind(kind(res(v)))
 //@   assigns nothing
+// IsArrayOf: an array all of whose members satisfy the given predicate (the predicate is an arbitrary function value:
+// nothing is claimed about the members here, only the shape)
+//@ func IsArrayOf
+//@   requires hasType != nil
+//@   ensures result ==> arrKind(kind(res(v)))
+//@   ensures !arrKind(kind(res(v))) ==> !result
+//@   assigns heap
+//@   loop 0 invariant 0 <= i && arrKind(kind(v)) && v == res(old(v))
 //@ func IsMap
 //@   ensures result == (kind(res(v)) == 21)
 //@   assigns nothing
